@@ -585,16 +585,32 @@ def run(ctx):
         return k.as_dict(private=True)
 
     # ------------------------------------------------------------- direction 1: joserfc -> reference
-    def j2r(spec, label):
+    thin = [0]
+
+    def replay_in_model(label):
+        """quick tier: the generic alg x enc matrix is replayed in Coq every 2nd time (C04 replays the same joserfc
+        behaviour in full); the targeted families are always replayed; the reference exchange always runs"""
+        if not ctx.quick or label.split(":")[0] in ("party-info", "direct-among-several", "spelling", "multi", "DEF"):
+            return True
+        thin[0] += 1
+        return thin[0] % 2 == 0
+
+    def j2r(spec, label, may_refuse=False):
         ctx.note_case(("j2r", label))
         bump("joserfc->ref:" + spec["ser"])
         obs, info = J.encrypt_spec(spec)
         sig = {"dir": "joserfc->reference", "algs": "+".join(spec["algs"]), "enc": spec["enc"], "ser": spec["ser"]}
+        if obs[0] != "ok" and may_refuse:
+            # a combination joserfc may refuse at encryption time: the verdict is compared with the model's
+            bump("refused-at-encryption")
+            if not info["nondet"] and J.table_chars(info["log"]) < 40000:
+                cases.append(J.case_enc(obs, info)); meta.append(("enc-refused", label))
+            return
         if obs[0] != "ok":
             ctx.violation(dict(sig, kind="encrypt-failed"), "joserfc failed to encrypt (%s): %s" % (label, obs[1]), {"label": label})
             return
         token = J.token_of(obs)
-        if not info["nondet"] and J.table_chars(info["log"]) < 40000:
+        if not info["nondet"] and J.table_chars(info["log"]) < 40000 and replay_in_model(label):
             cases.append(J.case_enc(obs, info)); meta.append(("enc", label))
         for i, (_, k) in enumerate(info["recips"]):
             try:
@@ -626,7 +642,7 @@ def run(ctx):
         except Exception as e:  # noqa
             raise RuntimeError("reference encrypt failed for %s: %r" % (label, e))
         obs, (dlog, nondet) = J.do_decrypt(J.dec_ser(ser), token, keys, sender=sender)
-        if not nondet and J.table_chars(dlog) < 40000:
+        if not nondet and J.table_chars(dlog) < 40000 and replay_in_model(label):
             cases.append(J.case_dec(J.dec_ser(ser), token, keys, sender, True, obs, dlog)); meta.append(("dec", label))
         if obs[0] != "ok" or obs[1] != pt:
             ctx.violation(dict(sig, kind="joserfc-rejects-reference-token"),
@@ -720,6 +736,26 @@ def run(ctx):
         j2r(spec, "multi:" + "+".join(algs))
         r2j("general", e, algs, "multi:" + "+".join(algs), crv=crv, zip_=i % 2 == 1, aad=b"b" if i % 3 == 1 else None,
             spell=sp[i % len(sp)])
+
+    # ------------------------------------------------------------- direct-mode algorithms among several recipients
+    # every order and mix with a direct-mode algorithm in any position: joserfc must REFUSE at encryption time, or else
+    # the token it emits must decrypt under the reference with EACH recipient's key (wire-level twin of C04's refusal oracle)
+    partners = ["A128KW", "RSA-OAEP", "ECDH-ES+A128KW", "A256GCMKW", "PBES2-HS256+A128KW", "ECDH-1PU+A128KW"]
+    if ctx.quick:
+        partners = partners[:4]
+    for dalg in J.DIRECT_ALGS:
+        for x in partners + J.DIRECT_ALGS:
+            for order in ([x, dalg], [dalg, x], [x, dalg, x], [x, x, dalg]):
+                if ctx.quick and len(order) == 3 and x not in ("A128KW", dalg):
+                    continue
+                if x in J.DIRECT_ALGS and order.count(x) + order.count(dalg) != len(order):
+                    continue
+                algs = [a if not (a in J.RSA_ALGS and j > 0 and order[0] in J.RSA_ALGS) else "A256KW" for j, a in enumerate(order)]
+                for crv in (["P-256", "X25519"] if dalg != "dir" else ["P-256"]):
+                    enc = "A128CBC-HS256"
+                    spec = J.make_spec(K, rng, "general", algs, enc, crv=crv, plaintext=b"for every recipient")
+                    j2r(spec, "direct-among-several:%s/%s" % ("+".join(algs), crv), may_refuse=True)
+                    bump("direct-among-several")
 
     # ------------------------------------------------------------- falsy-but-valid optional inputs, strict reference
     J.falsy_checks(ctx, K, rng, cases, meta, bump, ref_decrypt=decrypt, coq_cases=False)    # C04 replays these in the model
